@@ -1,5 +1,6 @@
 import EAO.Lemmas.CHPWindow
 import EAO.Lemmas.Contract
+import EAO.Lemmas.CHPProfile
 /-!
 # C08 — horizon and windows (builder side: CHP / Plant and the min-load-cost extension)
 
@@ -17,6 +18,9 @@ grid `g` (`g.idx` = the steps of the horizon inside `[start, end)`, `g.T` = thei
 * `chp_mapping_asset`: all mapping rows carry the asset's name, provided the parent's rows do;
 * `minload_vars_only_in_window`, `minload_no_dispatch_outside_window`, `minload_empty_window`: the same three for
   the min-load-cost builder (its `bool_threshhold` rows sit at steps of `g.idx`; empty window: nothing added);
+* `chp_profiles_vars_only_in_window`, `chp_profiles_no_dispatch_outside_window`, `chp_profiles_empty_window`: the same for
+  the builder WITH start / shutdown ramp profiles (`buildCHPP`, shutdown variables in addition), and
+  `chp_any_vars_only_in_window`, `chp_any_empty_window` for the dispatching builder `buildCHPAny`;
 * `chp_on_contract_*`, `minload_chp_on_contract_*`: the chains Contract → CHP (→ min-load) as the classes are
   derived in the code, with the hypothesis on the parent discharged by `contract_wf'`: on a well-formed restricted
   grid all mapping rows sit inside the window, and an empty window gives a problem with no variable, no row and no
@@ -154,6 +158,43 @@ theorem minload_chp_on_contract_empty_window {cp : ContractP} {fullT cu : Nat} {
     P.c = [] ∧ P.l = [] ∧ P.u = [] ∧ P.rows = [] ∧ P.mapping = [] := by
   rw [minload_empty_window hT h]
   exact chp_on_contract_empty_window hg hT hbase hchp
+
+/-! ### with start / shutdown ramp profiles (`buildCHPP`: shutdown variables in addition) -/
+
+/-- every mapping row of the CHP / Plant problem built WITH ramp profiles — dispatch, fuel rows, on, start and
+    shutdown variables — sits at a step of the restricted grid, provided the parent's rows do -/
+theorem chp_profiles_vars_only_in_window {p : CHPP} {q : CHPProfP} {base : AssetProblem} {g : Grid} {prices : Prices}
+    {u s : Nat} {P : AssetProblem} (hb : ∀ m ∈ base.mapping, m.step ∈ g.idx)
+    (h : buildCHPP p q base g prices u s = .ok P) : ∀ m ∈ P.mapping, m.step ∈ g.idx :=
+  CHPProfile.buildCHPP_window hb h
+
+/-- … hence zero read-out outside the window -/
+theorem chp_profiles_no_dispatch_outside_window {p : CHPP} {q : CHPProfP} {base : AssetProblem} {g : Grid}
+    {prices : Prices} {u s : Nat} {P : AssetProblem} (hb : ∀ m ∈ base.mapping, m.step ∈ g.idx)
+    (h : buildCHPP p q base g prices u s = .ok P) (t : Nat) (ht : t ∉ g.idx) (x : Vec) (n : String) :
+    ((P.mapping.filter fun m => m.step == t && m.node == some n).map fun m => x m.var * m.factor).sum = 0 :=
+  readout_zero (chp_profiles_vars_only_in_window hb h) t ht x n
+
+/-- empty window: the parent's problem unchanged -/
+theorem chp_profiles_empty_window {p : CHPP} {q : CHPProfP} {base : AssetProblem} {g : Grid} {prices : Prices}
+    {u s : Nat} {P : AssetProblem} (hT : g.T = 0) (h : buildCHPP p q base g prices u s = .ok P) : P = base :=
+  CHPProfile.buildCHPP_empty hT h
+
+/-- the builder for either case (`buildCHPAny`: with a profile `buildCHPP`, without `buildCHP`) -/
+theorem chp_any_vars_only_in_window {p : CHPP} {q : CHPProfP} {base : AssetProblem} {g : Grid} {prices : Prices}
+    {u s : Nat} {P : AssetProblem} (hb : ∀ m ∈ base.mapping, m.step ∈ g.idx)
+    (h : buildCHPAny p q base g prices u s = .ok P) : ∀ m ∈ P.mapping, m.step ∈ g.idx := by
+  unfold buildCHPAny at h
+  split at h
+  · exact chp_profiles_vars_only_in_window hb h
+  · exact chp_vars_only_in_window hb h
+
+theorem chp_any_empty_window {p : CHPP} {q : CHPProfP} {base : AssetProblem} {g : Grid} {prices : Prices}
+    {u s : Nat} {P : AssetProblem} (hT : g.T = 0) (h : buildCHPAny p q base g prices u s = .ok P) : P = base := by
+  unfold buildCHPAny at h
+  split at h
+  · exact chp_profiles_empty_window hT h
+  · exact chp_empty_window hT h
 
 end EAO.C08CHP
 
